@@ -46,6 +46,22 @@ def rand_two(rng, m1, m2, kmax=3):
     return out
 
 
+def rate_units(rng, single, two):
+    """the same reaction network with its rates in other units (rates per time unit of 1e-16..1e-8, or 1e6..1e12), or with one slow
+    bond / cell (all rates on the last bond - the ring-closing one in cyclic chains - or on one cell smaller by that factor): any
+    positive rate is admissible, and the generator is linear in the rates"""
+    u = rng.random()
+    if u >= 0.2:
+        return single, two
+    sc = float(10 ** rng.uniform(-16, -8)) if rng.random() < 0.75 else float(10 ** rng.uniform(6, 12))
+    if u < 0.12:
+        return [[[r[0], r[1], r[2] * sc] for r in cell] for cell in single], [[[r[0], r[1], r[2], r[3], r[4] * sc] for r in bond] for bond in two]
+    two = [list(b) for b in two]
+    j = len(two) - 1 if rng.random() < 0.6 else int(rng.integers(0, len(two)))
+    two[j] = [[r[0], r[1], r[2], r[3], r[4] * sc] for r in two[j]]
+    return single, two
+
+
 def w_slim(ctx, rng, idx):
     d = int(rng.integers(2, 7))
     if rng.random() < 0.5:
@@ -101,6 +117,8 @@ def w_slim(ctx, rng, idx):
         two[0].append([ss[0] - 1, max(ss[0] - 2, 0), ss[1] - 1, max(ss[1] - 2, 0), 0.7])
         single = [[[it(r[0]), it(r[1]), r[2]] for r in cell] for cell in single]
         two = [[[it(r[0]), it(r[1]), it(r[2]), it(r[3]), r[4]] for r in bond] for bond in two]
+    single, two = rate_units(rng, single, two)
+    ctx.describe({'op': 'slim_mme', 'state_space': ss, 'cyclic': cyc, 'threshold': thr, 'single': single, 'two': two})
     if rng.random() < 0.2:  # reactions as tuples / with NumPy scalars, the state space as tuple or integer array
         st = [np.int64, np.int64, np.uint8, np.uint16, np.uint64, np.intp][int(rng.integers(0, 6))]  # (state numbers are non-negative: unsigned types are natural for them)
         single = [[tuple(r) if rng.random() < 0.5 else [st(r[0]), st(r[1]), np.float64(r[2])] for r in cell] for cell in single]
@@ -129,6 +147,9 @@ def w_slim_hom(ctx, rng, idx):
     single = rand_single(rng, m)
     two = rand_two(rng, m, m)
     thr = [0, 1e-12][int(rng.integers(0, 2))]
+    if rng.random() < 0.15:
+        sc = float(10 ** rng.uniform(-16, -8))
+        single, two = [[r[0], r[1], r[2] * sc] for r in single], [[r[0], r[1], r[2], r[3], r[4] * sc] for r in two]
     ctx.describe({'op': 'slim_mme_hom', 'state_space': ss, 'cyclic': cyc, 'threshold': thr, 'single': single, 'two': two})
     if rng.random() < 0.25:
         call('slim.slim_mme_hom', slim.slim_mme_hom, ss, single, two, prop=P, tags=['coarse_threshold_first'], cyclic=cyc, threshold=float(10 ** rng.uniform(-3, -0.5)))
